@@ -61,7 +61,7 @@ def schedule(c):
 def event(ev):
     if ev is None:
         return "None"
-    cell = ev["r"] if (ev["r"] < 0 or ev["o"] == 0) else 1000 + ev["r"]
+    cell = ev["r"] if (ev["r"] < 0 or ev["o"] == 0) else 1000 + ev["r"]   # -2 pendingData mutex, -3 wg, -4 mark, -5 walk
     return "ev_ %s %s %s %s %s" % (core.z(ev["k"]), core.z(cell), core.z(ev["a"]), core.z(ev["b"]), core.z(ev["c"]))
 
 
@@ -123,8 +123,42 @@ KIND = {1: "access trace differs from the model at step %s", 2: "the bytes offer
         7: "the results of the user Flush calls (nil / ErrStreamClosed) differ from the model"}
 
 
-def run_harness(test, files_prop, n, seed, tag, extra_env=None):
+def instrument_stream():
+    """stream.go instrumented by go/verisched (atomics) plus, textually on the instrumented copy: the pendingData
+    mutex as a scheduling point (r.Lock()/r.Unlock() in the methods of *pendingData, s.pendingData.Lock()/Unlock()
+    -> vsLock/vsUnlock) and a scheduling point in front of every element access of the walks over
+    pendingData.unread (c20Walk(i) at the head of each `for i := range [r.]unread` loop).  Returns (overlay, error)."""
     ov, rep, err = sched.instrument(["stream.go"])
+    if err:
+        return None, err
+    key = os.path.join(core.REPO, "stream.go")
+    src = open(ov[key]).read()
+    n = [0]
+
+    def in_pending(m):
+        body = m.group(0)
+        body, k1 = re.subn(r"\br\.Lock\(\)", "vsLock(&r.Mutex)", body)
+        body, k2 = re.subn(r"\br\.Unlock\(\)", "vsUnlock(&r.Mutex)", body)
+        n[0] += k1 + k2
+        return body
+    src = re.sub(r"func \(r \*pendingData\) \w+\(.*?\n}\n", in_pending, src, flags=re.S)
+    src, k3 = re.subn(r"\bs\.pendingData\.Lock\(\)", "vsLock(&s.pendingData.Mutex)", src)
+    src, k4 = re.subn(r"\bs\.pendingData\.Unlock\(\)", "vsUnlock(&s.pendingData.Mutex)", src)
+    if n[0] < 4:
+        return None, "cannot find the pendingData critical sections in stream.go (found %d Lock/Unlock)" % n[0]
+    src, k5 = re.subn(r"(for i := range (?:\w+\.)?unread \{)", r"\1\n\t\tc20Walk(i)", src)
+    if k5 < 2:
+        return None, "cannot find the walks over pendingData.unread in stream.go (found %d loops)" % k5
+    d = os.path.join(core.WORK, "inst_c20_" + core.tree_hash())
+    os.makedirs(d, exist_ok=True)
+    p = os.path.join(d, "stream.go")
+    with open(p, "w") as fh:
+        fh.write(src)
+    return {key: p}, None
+
+
+def run_harness(test, files_prop, n, seed, tag, extra_env=None):
+    ov, err = instrument_stream()
     if err:
         return None, None, err
     outp = os.path.join(core.WORK, "%s_%s_%d.jsonl" % (test, tag, os.getpid()))
